@@ -151,6 +151,6 @@ package core
 //@   invariant cur:       f != nil && has(tx.store, f.gkey) && tx.store[f.gkey] == f && seen(f.gkey)
 //@   invariant emptied:   forall k string :: seen(k) && k != f.gkey ==> has(tx.store, k) && len(tx.store[k].l.elems) == 0
 //@   invariant pending:   forall k string :: has(tx.store, k) && (!seen(k) || k == f.gkey) ==> forall i int :: 0 <= i && i < len(tx.store[k].l.elems) ==> linked(u, tx.store[k].l.elems[i])
-//@   invariant node:      n != nil ==> toplevel(n) && n.owner == nil && linked(u, n)
+//@   invariant node:      n != nil ==> toplevel(n) && n.owner == nil && linked(u, n) && !n.inPool && !n.link.inPool && n != n.link
 //@   invariant done:      n == nil ==> len(f.l.elems) == 0
 //@   invariant others:    forall g *core.file :: old(g.gtx) != nil && old(g.gtx) != &u.allStore && old(g.gtx) != tx ==> g.l.elems == old(g.l.elems)
